@@ -41,7 +41,9 @@ What is NOT proved about the real code (hypotheses of `pipeline_correct` for the
 covered only by the differential / property run of `./check C12`, harness/src/c12.rs):
 
   (U1) the `pretty` crate's `render` is an instance of `bestWith ch` for some `ch` (it only inserts spaces and
-       newlines between `text`s, and `hardline` is a newline in every mode);
+       newlines between `text`s, and `hardline` is a newline in every mode); the model's `fits` is written after
+       `fitting` of pretty 0.12.5 (the head group flat, groups of the rest keep break mode) but WHERE lines break is
+       not diffed against the real formatter — the theorems hold for every chooser and do not depend on it;
   (U2) string level: printing the layout and re-lexing it gives back the atoms (two adjacent atoms re-lex to
        themselves, e.g. `principal` `.` `n`); evaluated by the harness on every output (`token_sequence_same`);
   (U3) the span lookups of utils.rs (`get_comment_at_start`, `get_comment_after_end`, `get_comment_at_end`,
